@@ -63,11 +63,7 @@ let () =
       | ["apply"; rs; bl] ->
         print_endline (statuses (apply_baseline_comparison (dlist parse_result rs) (parse_bl bl)))
       | ["ratchet"; rs; bl] ->
-        let rs = dlist parse_result rs in
-        print_endline (fmt_keys (check_baseline_ratchet rs (evaluated_of rs []) (parse_bl bl)))
-      | ["ratchet"; rs; bl; dirs] ->
-        let rs = dlist parse_result rs in
-        print_endline (fmt_keys (check_baseline_ratchet rs (evaluated_of rs (dlist dec dirs)) (parse_bl bl)))
+        print_endline (fmt_keys (check_baseline_ratchet (dlist parse_result rs) (parse_bl bl)))
       | ["tighten"; bl; ks] ->
         print_endline (fmt_bl (tighten_baseline (parse_bl bl) (dlist dec ks)))
       | ["update"; rs; m; obl] ->
@@ -75,19 +71,10 @@ let () =
       | ["step"; fl; rs; dirs; disk] ->
         let o = check_step (parse_flags fl) (dlist parse_result rs) (dlist dec dirs) (parse_obl disk) in
         Printf.printf "%s\t%d\t%s\t%s\n" (statuses o.o_results) (int_of_n o.o_exit) (fmt_obl o.o_disk) (fmt_keys o.o_stale)
-      | ["ffsub"; r; r'] ->
-        print_endline (if ff_subb (dlist parse_result r) (dlist parse_result r') then "1" else "0")
-      | ["ffsubbl"; r; r'; obl] ->
-        (* trigger = failed and not contained in the loaded baseline (repaired fail-fast loop) *)
-        let ob = parse_obl obl in
-        let trig x = is_failed x && (match ob with None -> true | Some bl -> not (contains (key_of x) bl)) in
-        print_endline (if ff_subb_gen trig (dlist parse_result r) (dlist parse_result r') then "1" else "0")
-      | ["ffseq"; r] ->
-        print_endline (string_of_int (List.length (ff_seq (dlist parse_result r))))
-      | ["ffseqbl"; r; obl] ->
-        let ob = parse_obl obl in
-        let trig x = is_failed x && (match ob with None -> true | Some bl -> not (contains (key_of x) bl)) in
-        print_endline (string_of_int (List.length (ff_seq_gen trig (dlist parse_result r))))
+      | ["ffsub"; r; r'; obl] ->
+        print_endline (if ff_subb (parse_obl obl) (dlist parse_result r) (dlist parse_result r') then "1" else "0")
+      | ["ffseq"; r; obl] ->
+        print_endline (string_of_int (List.length (ff_seq (parse_obl obl) (dlist parse_result r))))
       | _ -> print_endline "BADLINE"
     with Failure m -> print_endline ("BAD " ^ m) | Invalid_argument m -> print_endline ("BAD " ^ m))
   done with End_of_file -> ()
